@@ -43,6 +43,12 @@ def cmpStart (l : Loc) : Int :=
   | .ok k => k
   | .error _ => l.start
 
+/-- does `get_comparator` return (rather than raise)? -/
+def keyExists (l : Loc) : Bool :=
+  match comparatorStart l with
+  | .ok _ => true
+  | .error _ => false
+
 def sortKey (l : Loc) : Int × Int := (cmpStart l, l.len)
 
 /-- tuple comparison `left < right` -/
@@ -186,7 +192,7 @@ def linkCdsToParent (r : Rec) (g : Gene) : Rec :=
 /-- `Record.add_cds_feature` (translation checks aside): duplicate location or name is refused,
     the feature is inserted at `bisect_left`, then linked to the collections containing it -/
 def addCds (r : Rec) (g : Gene) : E Rec :=
-  if (match comparatorStart g.loc with | .ok _ => false | .error _ => true) then throw "value-error"
+  if !keyExists g.loc then throw "value-error"
   else if r.genes.any (fun f => f.loc == g.loc) then throw "value-error"
   else if r.genes.any (fun f => f.id == g.id) then throw "value-error"
   else
